@@ -1196,6 +1196,45 @@ def channel_selection(check, prog):
                   'the channel labels are computed element by element from the '
                   'requested channels, in the same order as the planes', loc,
                   fail_detail='labels: %s' % [show(l)[:120] for l in labels])
+    # the colour names are used exactly when every requested channel has one: the
+    # guard on the largest channel number matches the length of the name list
+    nguard = 0
+    for lab in labels:
+        def walk(t, conds=()):
+            nonlocal nguard
+            if t[0] == 'ite':
+                walk(t[2], conds + ((t[1], True),))
+                walk(t[3], conds + ((t[1], False),))
+                return
+            if not (t[0] == 'comp' and t[2][0] == 'idx' and t[2][1][0] == 'list'):
+                return
+            nnames = len(t[2][1][1])
+            for ct, pol in conds:
+                if ct[0] == 'cmp' and ct[1] in ('<', '<=', '>', '>=') and \
+                        any(x[0] == 'call' and isinstance(x[1], tuple) and
+                            x[1][0] == 'attr' and x[1][2] == 'max'
+                            for x in subterms(ct)):
+                    nguard += 1
+                    a, b = ct[2], ct[3]
+                    op = ct[1]
+                    if b[0] != 'num':       # constant on the left: mirror
+                        a, b = b, a
+                        op = {'<': '>', '<=': '>=', '>': '<', '>=': '<='}[op]
+                    if not pol:
+                        op = {'<': '>=', '<=': '>', '>': '<=', '>=': '<'}[op]
+                    lim = int(b[1]) if b[0] == 'num' else None
+                    okg = (op == '<=' and lim == nnames - 1) or \
+                        (op == '<' and lim == nnames)
+                    check.require(okg, 'U5-channel-selection', 'load_image colour names',
+                                  'the %d colour names label the planes whenever the '
+                                  'largest requested channel is below %d' % (
+                                      nnames, nnames), loc,
+                                  fail_detail='names are used when max(channel) %s %s: '
+                                  'a request that includes channel %d keeps integer '
+                                  'labels, unlike the per-channel metadata written '
+                                  'with the names' % (op, lim, nnames - 1))
+        walk(lab)
+    check.floor('guards of the colour-name labels', nguard, 1)
 
 
 def _leaves(t):
